@@ -9,6 +9,8 @@ from ..lib import FAILED
 from ..runner import Sub
 
 ID = 'C03'
+TECHNIQUE = 'known-answer PBT on exact two-slope elbows + exhaustive enumeration of all 16 512 slope pairs at short arms'
+LEVEL_TEXT = 'Exploration: Every detector variant must return the corner index; arm lengths are sampled (<= 300 quick, <= 600 thorough), the slope lattice is complete. Finds counter-examples (shrunk to a replay file); never proves absence.'
 RULE = ('elbow = two straight arms (a, b >= 3 segments), integer spacings in {1..4}, ordered pair of distinct '
         'slopes j/8 (|j| <= 64), x0 integer in [0,4096], y0 multiple of 1/8 in [-4096,4096]: every '
         'coordinate is exactly representable.  Known answer: corner index a for curvature, DFDT, Menger, '
